@@ -7,6 +7,32 @@ import (
 	"testing"
 )
 
+// TestDebugReplay runs the program of a replay file (VERIF_DEBUG_REPLAY=path);
+// with VERIF_LOG=1 litestream's log records are printed as they happen.
+func TestDebugReplay(t *testing.T) {
+	pp := os.Getenv("VERIF_DEBUG_REPLAY")
+	if pp == "" {
+		t.Skip()
+	}
+	b, err := os.ReadFile(pp)
+	if err != nil {
+		t.Fatal(err)
+	}
+	var rf ReplayFile
+	if err := json.Unmarshal(b, &rf); err != nil {
+		t.Fatal(err)
+	}
+	prop := Props[rf.Property]
+	res := prop.Run(t, rf.Program)
+	for _, e := range res.Events {
+		fmt.Println(e)
+	}
+	fmt.Println("trouble:", res.Trouble)
+	if res.Violation != nil {
+		fmt.Println("violation:", res.Violation.Class, res.Violation.Msg)
+	}
+}
+
 func TestDebugRun(t *testing.T) {
 	pp := os.Getenv("VERIF_DEBUG")
 	if pp == "" {
